@@ -536,6 +536,93 @@ example : exMixedRegs.map exMixedServe = List.replicate 6
      ("node", some 1, 1, "x/y".toList), ("node", some 4, 2, []), ("badmethod", none, 0, [])] := by
   decide
 
+/-! ### Router as one service of a fall-through chain -/
+
+/-- handlers that leave the path and the parsed route of the context alone -/
+def KeepsRoute (hs : H → Svc α) : Prop :=
+  ∀ h c, (hs h c).2.path = c.path ∧ (hs h c).2.route = c.route
+
+theorem Router.serve_ctx (r : Router H α) (c : Ctx α) (h : H) (c' : Ctx α)
+    (hs : r.serve c = .index h c' ∨ r.serve c = .dflt h c' ∨ r.serve c = .node h c') :
+    c'.path = c.path ∧ c'.route = c.route := by
+  have hsh : ∀ k, (c.shift k).path = c.path ∧ (c.shift k).route = c.route := fun k => ⟨rfl, rfl⟩
+  unfold Router.serve Router.notFound at hs
+  simp only at hs
+  repeat' split at hs
+  all_goals simp at hs
+  all_goals first
+    | (obtain ⟨_, rfl⟩ := hs; first | exact ⟨rfl, rfl⟩ | exact hsh _)
+    | skip
+
+theorem Router.shiftedCtx_keeps (r : Router H α) (c : Ctx α) :
+    (r.shiftedCtx c).path = c.path ∧ (r.shiftedCtx c).route = c.route := by
+  unfold Router.shiftedCtx
+  simp only
+  repeat' split
+  all_goals simp [Ctx.shift]
+
+/-- **a router that returns `Miss` hands the context back with the route position it was
+    given** (and, when its handlers leave path and route alone, the same path and route):
+    the next service of a fall-through chain routes on the same remaining segments. -/
+theorem router_miss_restores (r : Router H α) (hs : H → Svc α) (c : Ctx α) (hk : KeepsRoute hs)
+    (hm : (r.svc hs c).1 = .miss) :
+    (r.svc hs c).2.pos = c.pos ∧ (r.svc hs c).2.path = c.path ∧ (r.svc hs c).2.route = c.route := by
+  unfold Router.svc at hm ⊢
+  simp only at hm ⊢
+  have hkeep : (r.svcNoRestore hs c).2.path = c.path ∧ (r.svcNoRestore hs c).2.route = c.route := by
+    unfold Router.svcNoRestore
+    split <;> rename_i heq
+    · have hctx := Router.serve_ctx r c _ _ (Or.inl heq)
+      exact ⟨((hk _ _).1).trans hctx.1, ((hk _ _).2).trans hctx.2⟩
+    · have hctx := Router.serve_ctx r c _ _ (Or.inr (Or.inl heq))
+      exact ⟨((hk _ _).1).trans hctx.1, ((hk _ _).2).trans hctx.2⟩
+    · have hctx := Router.serve_ctx r c _ _ (Or.inr (Or.inr heq))
+      exact ⟨((hk _ _).1).trans hctx.1, ((hk _ _).2).trans hctx.2⟩
+    · exact Router.shiftedCtx_keeps r c
+    · exact Router.shiftedCtx_keeps r c
+    · exact ⟨rfl, rfl⟩
+  split
+  · exact ⟨rfl, hkeep.1, hkeep.2⟩
+  · rename_i hne
+    split at hm
+    · exact absurd ‹_› hne
+    · exact absurd hm hne
+
+/-- **dispatch only to a handler registered for a prefix of the request's path, also after a
+    fall-through**: when any router `r₁` returned `Miss` and the next router — built from the
+    registrations `ops` — then runs the handler of a node, that node is registered for the
+    first `k` of the segments that remained when the chain was entered (and no registration
+    matches more of them). -/
+theorem fallthrough_dispatch_prefix (sl : α) (r₁ : Router H α) (hs : H → Svc α) (hk : KeepsRoute hs)
+    (idx dflt : Option H) (ops : List (List α × RNode H α))
+    (c : Ctx α) (hc : c.route = newRoute sl c.path) (hm : (r₁.svc hs c).1 = .miss)
+    (h : H) (c' : Ctx α) (hserve : (Router.build sl idx dflt ops).1.serve (r₁.svc hs c).2 = .node h c') :
+    let rest := (segsOf sl c.path).drop c.pos
+    ∃ k n, 1 ≤ k ∧ k ≤ rest.length ∧ routeTable sl ops (rest.take k) = some n ∧ n.s = h ∧
+      (∀ j, k < j → j ≤ rest.length → routeTable sl ops (rest.take j) = none) ∧
+      c'.pos = c.pos + k := by
+  obtain ⟨h1, h2, h3⟩ := router_miss_restores r₁ hs c hk hm
+  have hc2 : (r₁.svc hs c).2.route = newRoute sl (r₁.svc hs c).2.path := by rw [h3, h2]; exact hc
+  obtain ⟨k, n, a1, a2, a3, a4, a5, _, a7, _⟩ :=
+    router_decision_char sl idx dflt ops (r₁.svc hs c).2 hc2 h c' hserve
+  rw [h1, h2] at a2 a3 a5
+  rw [h1] at a7
+  exact ⟨k, n, a1, a2, a3, a4, a5, a7⟩
+
+/-- the body of `Serve` alone (the code before the fix) does not have this property:
+    Resource `File("a")`, Guest `File("b")`, `GET /a/b` — the first router matches "a", shifts,
+    misses (no complete match), and the second then runs the handler registered for "b",
+    which is no prefix of "/a/b". -/
+theorem fallthrough_leak_without_restore :
+    let hs : Nat → Svc Char := fun _ c => (.ok, c)
+    let r₁ := (Router.build '/' none none [("a".toList, ⟨1, false, []⟩)] : Router Nat Char × List AddRes).1
+    let r₂ := (Router.build '/' none none [("b".toList, ⟨2, false, []⟩)] : Router Nat Char × List AddRes).1
+    let c := Ctx.new '/' "/a/b".toList "GET".toList []
+    (r₁.svcNoRestore hs c).1 = .miss ∧
+    (r₂.serve (r₁.svcNoRestore hs c).2).summary = ("node", some 2, 2, []) ∧
+    (r₁.svc hs c).1 = .miss ∧ (r₂.serve (r₁.svc hs c).2).summary = ("miss", none, 0, []) := by
+  decide
+
 end Router
 
 /-! ## 6. ServiceSet tiers -/
